@@ -32,6 +32,8 @@ D1 = [[0, 2], [1, 4], [2, 3]]
 D2 = [[0, 3], [1, 2]]
 D3 = [[1, 5], [2, 6], [3, 4]]
 DI = [[0.0, 2.0], [1.0, INF], [1.0, 3.0]]
+D8A = [[0, 3], [1, 4], [2, 3], [0, 7], [4, 6], [5, 9], [6, 7], [3, 8]]
+D8B = [[1, 2], [0, 5], [2, 6], [3, 4], [4, 9], [7, 8], [5, 6], [1, 7], [8, 10]]
 G1 = [[0, 1, 1, 0], [0, 0, 1, 0], [0, 0, 0, 1], [0, 0, 0, 0]]
 G2 = [[0, 1, 0], [0, 0, 1], [0, 0, 0]]
 G3 = [[0, 1], [0, 0]]
@@ -279,6 +281,23 @@ def thunks():
 
     reg("gromov_hausdorff_other_pair", mgh_swapped, ["G2", "G3"], forms=("list", "int"))
 
+    # ---- larger diagrams (8-9 points): size-dependent fast paths and caches keyed on the data
+    bf = ("int", "f64", "f32")
+    reg("big_heat_sigma_default", lambda P: persim.heat(P["A8"], P["B8"]), ["A8", "B8"], forms=bf)
+    reg("big_heat_sigma_1", lambda P: persim.heat(P["A8"], P["B8"], sigma=1.0), ["A8", "B8"], forms=bf)
+    reg("big_heat_swapped_sigma_3", lambda P: persim.heat(P["B8"], P["A8"], sigma=3.0), ["A8", "B8"], forms=bf)
+    reg("big_bottleneck", lambda P: persim.bottleneck(P["A8"], P["B8"], matching=True), ["A8", "B8"], forms=bf)
+    reg("big_wasserstein", lambda P: persim.wasserstein(P["B8"], P["A8"], matching=True), ["A8", "B8"], forms=bf)
+    reg("big_sliced_wasserstein_M5", lambda P: persim.sliced_wasserstein(P["A8"], P["B8"], M=5), ["A8", "B8"], forms=bf)
+    reg("big_sliced_wasserstein_M20", lambda P: persim.sliced_wasserstein(P["A8"], P["B8"], M=20), ["A8", "B8"], forms=bf)
+    reg("big_entropy", lambda P: persistent_entropy([P["A8"], P["B8"]], normalize=True), ["A8", "B8"], forms=bf)
+    reg("big_exact", lambda P: [PersLandscapeExact(dgms=[P["A8"]], hom_deg=0), (PersLandscapeExact(dgms=[P["A8"]], hom_deg=0) - PersLandscapeExact(dgms=[P["B8"]], hom_deg=0)).p_norm(3)], ["A8", "B8"], forms=bf)
+    reg("big_approx", lambda P: PersLandscapeApprox(dgms=[P["B8"]], hom_deg=0, num_steps=40), ["B8"], forms=bf)
+    reg("big_approx_other_steps", lambda P: PersLandscapeApprox(dgms=[P["B8"]], hom_deg=0, num_steps=17, start=-1.0, stop=12.0), ["B8"], forms=bf)
+    reg("big_imager", lambda P: PersistenceImager(pixel_size=0.5, birth_range=(0.0, 8.0), pers_range=(0.0, 6.0)).transform([P["A8"], P["B8"]]), ["A8", "B8"], forms=bf)
+    reg("big_imager_other_sigma", lambda P: PersistenceImager(pixel_size=0.5, birth_range=(0.0, 8.0), pers_range=(0.0, 6.0), kernel_params={"sigma": 0.25}).transform(P["A8"]), ["A8"], forms=bf)
+    reg("big_landscaper", lambda P: PersistenceLandscaper(hom_deg=0, num_steps=30).fit_transform([P["A8"], P["B8"]]), ["A8", "B8"], forms=bf)
+
     # ---- kernels and weights called directly --------------------------------------------------
     from persim import images_kernels as ik, images_weights as iw
 
@@ -367,6 +386,7 @@ def make_pool(f):
         "plot_only": [1], "xy_range": [-1.0, 7.0, -1.0, 7.0],
         "M": np.array([[0.0, 0.0, 1.0], [1.0, 1.0, 2.0], [2.0, -1.0, 0.5]]),
         "IMG": np.arange(36, dtype=float).reshape(6, 6) / 36.0,
+        "A8": form(D8A, dform), "B8": form(D8B, dform),
         "X": np.array([-1.0, 0.0, 0.5, 1.0, 2.5]), "Y": np.array([0.25, 1.0, 0.5, 2.0, 1.5]),
         "mu": np.array([0.5, 1.0]), "sigma": np.array([[1.0, 0.6], [0.6, 2.0]]),
     }
